@@ -64,7 +64,7 @@ class C11(Prop):
                 X = [Fraction(rng.randint(0, max(1, n // 2))) for _ in range(n)]  # many ties
             else:
                 X = [Fraction(rng.randint(-20, 20), 4) for _ in range(n)]
-            ys = [Fraction(v) for v in ic.gen_y(rng, n, rng.choice(["small", "digits", "dyadic", "neg"]))]
+            ys = [Fraction(v) for v in ic.gen_y(rng, n, rng.choice(["small", "digits", "dyadic", "neg", "tiny", "near"]))]
             w = None
             if f in ("mean", "expectile") and rng.random() < 0.6:
                 w = [Fraction(v) for v in ic.gen_w(rng, n, allow_none=False)]
@@ -123,14 +123,15 @@ class C11(Prop):
         if "err" in io:
             return None
         tol = 1e-7 if case["f"] == "expectile" else 1e-9
+        ys_ = ic.data_scale(case)  # no absolute tolerance on fitted values: small units must not hide a difference
         tx, ty, pr = dec_list(mo["tx"]), dec_list(mo["ty"]), dec_list(mo["pred"])
         # thresholds may legitimately differ when float ties split a block; compare the function they define
         for q, a, b in zip(case["q"], io["pred"], pr):
-            if not close(a, b, tol, tol):
+            if not close(a, b, tol, tol * ys_):
                 return f"prediction at {q}: {a!r}, model {float(b)!r}"
         if case["f"] != "expectile":
             if len(io["tx"]) != len(tx) or any(not close(a, b, tol, tol) for a, b in zip(io["tx"], tx)) or any(
-                    not close(a, b, tol, tol) for a, b in zip(io["ty"], ty)):
+                    not close(a, b, tol, tol * ys_) for a, b in zip(io["ty"], ty)):
                 # thresholds differ although predictions agree: only a float-tie artefact if the mean fit had equal blocks
                 if case["f"] in ("quantile", "median"):
                     return f"thresholds differ: {io['tx']}/{io['ty']} vs model {[float(v) for v in tx]}/{[float(v) for v in ty]}"
@@ -146,7 +147,8 @@ class C11(Prop):
         n = len(ys)
         ws = [Fraction(1)] * n if case.get("w") is None else [Fraction(v) for v in case["w"]]
         a = Fraction(1, 2) if f == "median" else ic.level_exact(case["level"])
-        scale = max(1.0, max(abs(float(v)) for v in ys))
+        scale = ic.data_scale(case)
+        atol = tol * scale
         keys, groups = group_rows(X, ys, ws)
         train = dict()
         for x, p in zip(X, io["train"]):
@@ -181,7 +183,7 @@ class C11(Prop):
         # row order independence, 2-d X
         for name in ("perm_pred", "col_pred"):
             for q, u, v in zip(case["q"], io["pred"], io[name]):
-                if not close(u, v, tol, tol):
+                if not close(u, v, tol, atol):
                     return f"{'row permutation' if name == 'perm_pred' else 'X of shape (n,1)'} changes the prediction at {q}: {u!r} vs {v!r}"
         # new points
         qs = [Fraction(v) for v in case["q"]]
@@ -190,11 +192,11 @@ class C11(Prop):
         for i, (q, p) in enumerate(zip(qs, pr)):
             if not np.isfinite(p):
                 return f"prediction at {float(q)} is {p}"
-            if q <= lo_x and not close(p, train[lo_x], tol, tol):
+            if q <= lo_x and not close(p, train[lo_x], tol, atol):
                 return f"prediction {p!r} at {float(q)} <= min X differs from the fitted value {train[lo_x]!r} at min X"
-            if q >= hi_x and not close(p, train[hi_x], tol, tol):
+            if q >= hi_x and not close(p, train[hi_x], tol, atol):
                 return f"prediction {p!r} at {float(q)} >= max X differs from the fitted value {train[hi_x]!r} at max X"
-            if q in train and not close(p, train[q], tol, tol):
+            if q in train and not close(p, train[q], tol, atol):
                 return f"prediction at training point {float(q)} inconsistent: {p!r} vs {train[q]!r}"
             if lo_x < q < hi_x and q not in train:
                 left = max(k for k in keys if k < q)
@@ -208,7 +210,7 @@ class C11(Prop):
         if "skl" in io:
             stol = 1e-5 if case.get("xdtype") == "float32" else 1e-9  # scikit-learn computes in the dtype of X
             for q, u, v in zip(case["q"], pr, io["skl"]):
-                if not close(u, v, stol, stol):
+                if not close(u, v, stol, stol * scale):
                     return f"mean model differs from scikit-learn's clipped isotonic regression at {q}: {u!r} vs {v!r}"
         return None
 
